@@ -71,11 +71,13 @@ def cases(tier, seed=0):
                     out.append(make_case(PROP, "marginal", kind, 3, 3, Rc, Rx, semi=("Sx",), timeout=1200))
             else:
                 for (Dx, Dy) in [(3, 1), (1, 3), (2, 3), (3, 2)]:
-                    for (Rc, Rx) in batches + [(1, 3), (3, 1)]:
+                    for (Rc, Rx) in batches + ([(1, 3), (3, 1)] if Dx + Dy <= 4 else []):
                         if kind == "nncontrol" and Rc > 2:
                             continue
-                        for semi in rotations(kind, 2):
-                            out.append(make_case(PROP, "marginal", kind, Dx, Dy, Rc, Rx, semi=semi, timeout=1200))
+                        # (a symbolic 3x3 noise covariance, or Dx+Dy=5 with a symbolic covariance block, needs 20-60 min per case: left out)
+                        rots = [("Sx", "Sy")] if (Dy == 3 or Dx + Dy == 5) else rotations(kind, 2)
+                        for semi in rots:
+                            out.append(make_case(PROP, "marginal", kind, Dx, Dy, Rc, Rx, semi=semi, timeout=3000))
                 for (Rc, Rx) in batches:
                     if kind == "nncontrol" and Rc > 2:
                         continue
